@@ -301,7 +301,7 @@ class DiffTree(Comp):
         if " | end:" in out or out.startswith("?cmd"):              # implementation
             r = results(out)
             try:
-                return " | ".join(self.cut(["hyp=11111"] + sections(r, NPSEUDO)))
+                return " | ".join(self.cut(["hyp=111111"] + sections(r, NPSEUDO)))
             except (IndexError, KeyError):
                 return "bad answer: " + out[:200]
         secs = out.split(" | ")
